@@ -12,6 +12,7 @@
 //	rep   Bridge.reportTrafficStats under a forced interleaving (gated CloudControl)
 //	brg   Bridge.Close, cleanup report racing the periodic goroutine's final report
 //	sp    StreamProcessor.Close against an in-flight ReadPacket/WritePacket (gated transport)
+//	flow  started Bridge with data in flight: EOF / endpoint error / Close / parent-context cancel; totals vs bytes delivered
 //	mgr   memory storage / SessionManager Close × N, background goroutines gone afterwards
 package main
 
@@ -51,6 +52,8 @@ func exec(caseStr string) (obs string) {
 			return runSp(t)
 		case "mgr":
 			return runMgr(t)
+		case "flow":
+			return runFlow(t)
 		}
 		return "bad case"
 	})
@@ -216,6 +219,22 @@ func gen(out *vc.Out, r *vc.Rand, thorough bool) {
 		emit(out, "", fmt.Sprintf("sp op z chunks 0 cut -1 n %d rep %d %s", n, 20*mul, ms()))
 	}
 	emit(out, "", fmt.Sprintf("sp op z chunks 0 cut -1 n 16 rep %d %s", 50*mul, ms()))
+
+	// flow: data in flight, every completion path of the bridge; the totals are compared with the
+	// bytes the fake target endpoint accepted
+	for _, mode := range []string{"eof", "err", "werr", "close"} {
+		for _, c := range [][2]int{{1, 1}, {7, 3}, {100, 1 + r.Intn(400)}, {32768, 33 + r.Intn(4)}, {1 + r.Intn(512), 1 + r.Intn(200)}} {
+			emit(out, "", fmt.Sprintf("flow mode %s chunk %d at %d rep 1 %s", mode, c[0], c[1], ms()))
+		}
+	}
+	// parent context cancelled while ≥ ContextCheckInterval small reads keep flowing
+	ctxAts := []int{1, 1 + r.Intn(9998), 9999}
+	if thorough {
+		ctxAts = append(ctxAts, 10000, 10001+r.Intn(9000), 20000)
+	}
+	for _, at := range ctxAts {
+		emit(out, "", fmt.Sprintf("flow mode ctx chunk %d at %d rep 1 %s", 1+r.Intn(5)/4, at, ms()))
+	}
 
 	// mgr: storage and session manager, several closer counts
 	for _, kind := range []string{"st", "sm"} {
